@@ -151,7 +151,7 @@ struct AtomAddress {
 namespace std {
 template <> struct hash<gemmi::ResidueId> {
   size_t operator()(const gemmi::ResidueId& r) const {
-    size_t seqid_hash = (*r.seqid.num << 7) + (r.seqid.icode | 0x20);
+    size_t seqid_hash = ((size_t) *r.seqid.num << 7) + (r.seqid.icode | 0x20);
     return seqid_hash ^ hash<string>()(r.segment) ^ hash<string>()(r.name);
   }
 };
